@@ -132,7 +132,7 @@ impl Family for C04Family {
         }
         c.prelude = pre;
         let mut actor = gen_actor(&mut r);
-        actor.hmac = HmacCfg::None;
+        // (whether the authenticator is configured for hmac-secret must not matter: no request here carries prf)
         actor.verification = cell.verification;
         actor.presence_enabled = cell.presence_enabled;
         let hit = IdRef::NthOfRp(0);
